@@ -151,6 +151,8 @@ def _parse_documented_type(type_: str, context: Dict[str, Any], err: str) -> Any
         else:
             msg = ''
         raise PedanticDocstringException(f'{err}Documented type "{type_}" was not found.{msg}')
+    except Exception as ex:  # e.g. SyntaxError for 'int or', TypeError for 'List[int, str]', AttributeError for 'int.foo'
+        raise PedanticDocstringException(f'{err}Documented type "{type_}" cannot be evaluated: {ex}')
 
 
 def _update_context(context: Dict[str, Any], type_: Any) -> Dict[str, Any]:
